@@ -4,6 +4,7 @@ import (
 	"encoding/json"
 	"flag"
 	"fmt"
+	"go/types"
 	"os"
 	"path/filepath"
 	"regexp"
@@ -19,6 +20,7 @@ type Ctx struct {
 	Tier  string
 	Verif string
 	e1eng *e1
+	helperTab map[*types.Func]*helperInfo
 }
 
 // PropSpec describes how one property is decided.
